@@ -63,6 +63,20 @@ theorem C01_arith_matrix :
     -- and nothing else: no pair is handled twice or with a second expression
     Gen.arithMatrix.length = 16 := by decide
 
+/-- **C01 (the kind matrix of the comparison helpers, read from runtime.go).** `runtimeEql` and `runtimeLss` have a case for
+every same-type pair the property speaks of - (int | float) x (int | float), string x string, and for equality bool x bool - and
+that case compares the two values themselves (`X == Y` / `X < Y`, no formatting in between). The derived relations
+`> >= <= !=` are the closures of `C01_closures` over these two. -/
+theorem C01_cmp_matrix :
+    Gen.cmpMatrix_ok = true ∧
+    (["int", "float"].all fun kx => ["int", "float"].all fun ky =>
+      Gen.cmpMatrix.contains ("runtimeEql", kx, ky, "X == Y") && Gen.cmpMatrix.contains ("runtimeLss", kx, ky, "X < Y")) = true ∧
+    Gen.cmpMatrix.contains ("runtimeEql", "string", "string", "X == Y") = true ∧
+    Gen.cmpMatrix.contains ("runtimeLss", "string", "string", "X < Y") = true ∧
+    Gen.cmpMatrix.contains ("runtimeEql", "bool", "bool", "X == Y") = true ∧
+    -- no pair of kinds has two cases
+    ((Gen.cmpMatrix.map fun r => (r.1, r.2.1, r.2.2.1)).eraseDups.length = Gen.cmpMatrix.length) = true := by decide
+
 open Pug.Props.C01S in
 /-- **C01 (arithmetic on numbers)**: `+ - *` are exact, `/` divides (non-zero divisor), on `Number` operands. -/
 theorem C01_arith (h : Heap) (a b : Rat) :
